@@ -62,7 +62,7 @@ def residues_of(moltypes, molecules):
         for _ in range(n):
             mt = by[name]
             for r in range(mt['nres']):
-                out.append((mt['resnames'][r], sum(1 for a in mt['atoms'] if a['resid'] == r + 1)))
+                out.append((mt['resnames'][r], sum(1 for a in mt['atoms'] if a.get('res', a['resid'] - 1) == r)))
     return out
 
 
@@ -110,7 +110,8 @@ def gen_system(rng, multi=None):
         # residue names as they occur in real systems, solvent names included
         resnames = [rng.choice(['RA', 'RB', 'SOL', 'W', 'HOH']) for _ in range(nres)] if rng.random() < 0.4 else None
         moltypes.append(systems.gen_moltype(rng, f'M{"ABC"[i]}', nres=nres, multi_atom=(rng.random() < 0.5 if multi is None else multi),
-                                            shape='path' if rng.random() < 0.7 else None, resnames=resnames))
+                                            shape='path' if rng.random() < 0.7 else None, resnames=resnames,
+                                            restart=nres >= 2 and rng.random() < 0.2))
     molecules = [(rng.choice(moltypes)['name'], rng.randint(1, 2)) for _ in range(rng.randint(1, 3))]
     return moltypes, molecules
 
@@ -181,7 +182,7 @@ def build_input(case):
     for mi, name in enumerate(inst):
         mt = by[name]
         for r in range(mt['nres']):
-            atoms = [(a['resid'], a['resname'], a['name']) for a in mt['atoms'] if a['resid'] == r + 1]
+            atoms = [(a['resid'], a['resname'], a['name']) for a in mt['atoms'] if a.get('res', a['resid'] - 1) == r]
             rn = mt['resnames'][r]
             if rn in case['skip'] or budget <= 0:
                 plan.append({'mol': mi, 'kind': 'build', 'atoms': atoms})
@@ -231,6 +232,47 @@ def run_case(case, timeout=90):
     return res, rows, plan
 
 
+F30_TOP = """[ defaults ]
+1 2 no 1.0 1.0
+[ atomtypes ]
+P1 72.0 0.0 A 0.47 2.0
+[ moleculetype ]
+MA 1
+[ atoms ]
+1 P1 1 RA B 1 0.0 72
+2 P1 2 RA B 2 0.0 72
+3 P1 1 RA B 3 0.0 72
+4 P1 2 RA B 4 0.0 72
+[ bonds ]
+1 2 1 0.35 5000
+2 3 1 0.35 5000
+3 4 1 0.35 5000
+[ system ]
+x
+[ molecules ]
+MA 1
+"""
+
+
+def noncontiguous_residue_case(ctx):
+    """F30: a residue (number, name) whose atoms are not a contiguous run of the topology, fully supplied with -c"""
+    pts = [(1.0, 1.0, 1.0), (1.4, 1.0, 1.0), (1.8, 1.0, 1.0), (2.2, 1.0, 1.0)]
+    rows = [{'resid': r, 'resname': 'RA', 'name': 'B', 'xyz': p} for r, p in zip([1, 2, 1, 2], pts)]
+    with systems.Workdir() as wd:
+        systems.write_gro(f'{wd}/in.gro', rows, [5.0] * 3)
+        res = systems.run_gen_coords(wd, F30_TOP, seed=1, timeout=60, coordpath='in.gro')
+    ctx.case(('F30', 'noncontiguous residue'), nontrivial=True, sample={'resids': [1, 2, 1, 2], 'ok': res['ok']})
+    ctx.feature('residue_with_non_contiguous_atoms')
+    if not res['ok'] or res.get('rows') is None:
+        ctx.violation('spec', f"a fully supplied molecule whose residue 1RA holds atoms 1 and 3 is not written: {res.get('exc_type')}",
+                      {'f30': True}, finding='F30')
+        return
+    moved = [(k + 1, p, o['xyz']) for k, (p, o) in enumerate(zip(pts, res['rows'])) if any(abs(a - b) > 5e-4 for a, b in zip(p, o['xyz']))]
+    if moved:
+        ctx.violation('spec', f"supplied atoms of a molecule whose residue 1RA holds atoms 1 and 3 are written at other coordinates: {moved[:2]}",
+                      {'f30': True}, finding='F30')
+
+
 def judge(case, res, plan):
     bad = []
     if not res['ok']:
@@ -270,6 +312,7 @@ def run(ctx):
                             'engine slots: NonBondEngine.from_topology under -ign vs model slots',
                             'end-to-end gen_coords -c/-mc/-res/-ign with partial chains and scripted failed attempts: input vs output structure']
     rng = ctx.rng
+    noncontiguous_residue_case(ctx)
     # (i) consume
     exprs, keep = [], []
     with systems.Workdir() as wd:
@@ -416,6 +459,22 @@ def search(ctx):
 
 def replay(ctx, data):
     print(json.dumps(data, indent=1, default=str)[:2500])
+    if data.get('f30'):
+        class C:
+            violations = []
+
+            def case(self, *a, **k):
+                pass
+
+            def feature(self, *a):
+                pass
+
+            def violation(self, kind, what, rep, finding=None):
+                self.violations.append(what)
+        c = C()
+        noncontiguous_residue_case(c)
+        print('replay:', c.violations or 'supplied coordinates kept')
+        return 1 if c.violations else 0
     case = data.get('case')
     if not case:
         return 0
